@@ -57,6 +57,15 @@ raise returns the outcome together with the object state reached so far):
   conditions:  x is None / is not None -> is_none;  ==, != -> py_eq (total);  <, <=, >, >= on ints -> Z comparisons,
                on values -> omap truthy (bop O a b) (can raise);  a value as a condition -> truthy;  not / and / or
                with Python's evaluation order and short-circuit;  `a if c else b` likewise
+  self.f.reset() / self.g = self.f.all() / return next(self)      preset / pall / pself (parameters only when used)
+  try: .. except StopIteration: self.f = ..; raise                the bare raise re-raises StopIteration
+  [Pattern.value(v) for v in self.f] (f : list arg)               values_of (pvalue fuel) f
+  dict((k, Pattern.value(v)) for k, v in list(self.f.items()))    kwvalues_of (pvalue fuel) f     (f : list (string * arg))
+  x = Pattern.value(self.f); dict([(k, Pattern.value(x[k])) for k in x])      f = AD kv: VDict of kwvalues_of (pvalue fuel) kv
+  self.operator(v, *args, **kwargs) (operator : fn)               apply_fn operator v args kwargs
+  x = Pattern.value(self.f), x subscripted under Pattern.value: f = AL l (items stepped in place), otherwise x is the value
+                               Pattern.value gives and Pattern.value(x[i]) is py_seq_item x i; if that path does not
+                               translate it is outside the model (Inexact)
   super().reset() (reset only) Pattern.reset: every Pattern-holding attribute (model type arg), in the order in which
                                __init__ creates the attributes: obind (reset_field rp f) (fun f' => ..)
                                (reset_field: a pattern, the items of a list, the values of a dict, and - since the repair
@@ -121,10 +130,11 @@ for _c in ["PReset", "PIndexOf", "PConcatenate", "PArrayIndex", "PDictKey"]:
 REQUIRED |= {("PDict", "reset")}
 REQUIRED |= {(_c, "next") for _c in ["PReset", "PIndexOf", "PConcatenate", "PDictKey"]}
 REQUIRED |= {("PPingPong", m) for m in ("next", "reset", "init")}
+REQUIRED |= {("PArrayIndex", "next"), ("PDict", "next"), ("PMap", "next")}
 
 COQ_RESERVED = {"end", "in", "let", "fun", "match", "with", "if", "then", "else", "return", "as", "at", "fix", "forall",
                 "exists", "Type", "Prop", "Set", "using", "where", "for", "cofix"}
-SUPPORTED_TYPES = ("val", "arg", "Z", "bool", "list val")
+SUPPORTED_TYPES = ("val", "arg", "Z", "bool", "list val", "fn", "list arg", "list (string * arg)")
 BUILTINS = ("next", "abs", "int", "len", "pow", "round", "list", "reversed", "super", "isinstance", "dict", "tuple")
 
 
@@ -228,8 +238,8 @@ def src_line(st):
 class Ctx:
     """where control goes when a statement list ends / when StopIteration is raised in it"""
 
-    def __init__(self, on_end, on_stop=None, in_try=False, in_loop=False):
-        self.on_end, self.on_stop, self.in_try, self.in_loop = on_end, on_stop, in_try, in_loop
+    def __init__(self, on_end, on_stop=None, in_try=False, in_loop=False, in_handler=False):
+        self.on_end, self.on_stop, self.in_try, self.in_loop, self.in_handler = on_end, on_stop, in_try, in_loop, in_handler
 
 
 class Method:
@@ -254,7 +264,9 @@ class Method:
         subs = [n for n in ast.walk(fn) if isinstance(n, ast.Subscript)]
         lens = [n.args[0] for n in ast.walk(fn) if isinstance(n, ast.Call) and isinstance(n.func, ast.Name)
                 and n.func.id == "len" and len(n.args) == 1 and not n.keywords]
-        self.listlike = {n.value.id for n in subs if isinstance(n.value, ast.Name) and id(n) in stepped}
+        # x in `dict([(k, Pattern.value(x[k])) for k in x])`: x is the dict held by an attribute
+        self.dictlike = {d[0] for d in (self.dict_comp(c) for c in ast.walk(fn)) if d}
+        self.listlike = {n.value.id for n in subs if isinstance(n.value, ast.Name) and id(n) in stepped and n.value.id not in self.dictlike}
         self.listlike |= {a.id for a in lens if isinstance(a, ast.Name)}
         # locals used as a container VALUE (x[k] read as a value, `.. in x`, x.index(..)): Pattern.value(self.f) then also
         # accepts a list / dict literal without patterns inside (cvalue)
@@ -267,6 +279,38 @@ class Method:
         self.listfields = [n.value.attr for n in subs if is_self_attr(n.value) and id(n) in stepped] + [a.attr for a in lens if is_self_attr(a)]
         self.listfields = [a for a in dict.fromkeys(self.listfields)
                            if a in klass.attr2field and dict(klass.fields)[klass.attr2field[a]] == "arg"]
+
+    @staticmethod
+    def dict_comp(c):
+        """dict([(K, Pattern.value(X[K])) for K in X]) -> (X,)"""
+        if not (isinstance(c, ast.Call) and isinstance(c.func, ast.Name) and c.func.id == "dict" and len(c.args) == 1 and not c.keywords
+                and isinstance(c.args[0], ast.ListComp) and len(c.args[0].generators) == 1):
+            return None
+        g, e = c.args[0].generators[0], c.args[0].elt
+        if g.ifs or g.is_async or not isinstance(g.target, ast.Name) or not isinstance(g.iter, ast.Name):
+            return None
+        K, X = g.target.id, g.iter.id
+        if not (isinstance(e, ast.Tuple) and len(e.elts) == 2 and isinstance(e.elts[0], ast.Name) and e.elts[0].id == K):
+            return None
+        v = e.elts[1]
+        if not (isinstance(v, ast.Call) and is_static(v.func, "Pattern", "value") and len(v.args) == 1 and not v.keywords
+                and isinstance(v.args[0], ast.Subscript) and isinstance(v.args[0].value, ast.Name) and v.args[0].value.id == X
+                and isinstance(v.args[0].slice, ast.Name) and v.args[0].slice.id == K):
+            return None
+        return (X,)
+
+    def seq_call(self, fnname, f, env, k, base, ty):
+        """values_of / kwvalues_of (pvalue fuel) over a list / dict of possibly pattern-valued items held by field f"""
+        o, f2, x = self.fresh("o"), self.fresh("self_" + f), self.fresh(base)
+        wrap = (lambda t: "(AD %s)" % t) if ty == "adict" else (lambda t: t)
+        cur = env.alias[f] if ty == "adict" else env.fields[f][1]
+        env2 = env.set_field(f, dict(self.k.fields)[f], wrap(f2))
+        if ty == "adict":
+            env2.alias[f] = f2
+        if self.mode != "next":
+            raise Reject("a comprehension over an attribute outside __next__")
+        return "(let '(%s, %s) := %s (pvalue %s) %s in\n match %s with\n | Yield %s =>%s\n | _ => (ocast %s, %s)\n end)" % (
+            o, f2, fnname, env.fuel, cur, o, x, I(k(x, env2)), o, self.st(env2))
 
     def use(self, extra):
         self.k.extras[self.mode].add(extra)
@@ -386,7 +430,8 @@ class Method:
             raise Reject("next() in reset / __init__")
         return "(let '(%s, %s) := %s %s %s in\n obind %s (fun %s =>%s))" % (o, f2, fnname, env.fuel, t, o, x, I(k("val", x, env2), 1))
 
-    def bind_list(self, name, attr, env, cont):
+    def bind_list(self, name, attr, env, cont, ctx=None):
+        ctx = ctx or Ctx(None)
         """x = Pattern.value(self.f) where x is then used as a list: Pattern.value returns a list as it is, so x is the
         list object held by self.f (model: f = AL l; anything else is outside the model: Inexact)"""
         f = self.field(attr)
@@ -395,13 +440,27 @@ class Method:
             raise Reject("Pattern.value(self.%s) used as a list, but the model types the attribute %s" % (attr, ty))
         l = self.fresh("l_" + f)
         env2 = env.set_field(f, "arg", "(AL %s)" % l).set_local(name, "alist:" + f, l)
-        return "(match %s with\n | AL %s =>%s\n | _ => %s\n end)" % (t, l, I(cont(env2)), self.r_exc(env, "Inexact"))
+        # anything but a list literal goes through Pattern.value and x is a VALUE; if the rest of the body does with it
+        # something that is not translated for values, that path is outside the model
+        try:
+            saved = (self.counter, self.forks)
+            other = self.child_call("pvalue", attr, env, ctx, lambda ty, t2, env1: cont(env1.set_local(name, "seqval", t2)), "v_" + name)
+        except Reject:
+            self.counter, self.forks = saved
+            other = self.r_exc(env, "Inexact")
+        return "(match %s with\n | AL %s =>%s\n | _ =>%s\n end)" % (t, l, I(cont(env2)), I(other))
 
     def element_call(self, fnname, sub, env, ctx, k, base):
         """Pattern.value(x[i]) / next(x[i]), x the list held by self.f (a local bound to it, or self.f itself): one call on
         the element, whose new state goes back into the list"""
         if self.mode != "next":
             raise Reject("a call on a list element outside __next__")
+        if isinstance(sub.value, ast.Name) and env.locals.get(sub.value.id, ("",))[0] == "seqval":
+            # Pattern.value(x[i]) on a list / tuple VALUE: its items are plain values
+            if fnname != "pvalue":
+                raise Reject("next() of an item of a list value")
+            c = env.locals[sub.value.id][1]
+            return self.ev(sub.slice, env, ctx, lambda ti, i, env1: self.prim("(py_seq_item %s %s)" % (c, self.to_val(ti, i)), env1, k, base, None))
         if isinstance(sub.value, ast.Name):
             name = sub.value.id
             ty, _ = env.locals.get(name, ("", None))
@@ -422,6 +481,9 @@ class Method:
                 return e2
 
         def k1(ti, i, env1):
+            if ti == "val":
+                z = self.fresh("i")
+                return "(match int_of %s with\n | Some %s =>%s\n | None => %s\n end)" % (i, z, I(k1("Z", z, env1)), self.r_exc(env1, "Raise TypeError"))
             if ti != "Z":
                 raise Reject("index of type %s: %s" % (ti, ast.unparse(sub)))
             l = cur(env1)
@@ -462,6 +524,46 @@ class Method:
             return k("Z", "MAXSIZE", env)
         if isinstance(n, ast.List) and not n.elts:
             return k("list val", "[]", env)
+        if (isinstance(n, ast.ListComp) and len(n.generators) == 1 and not n.generators[0].ifs and isinstance(n.generators[0].target, ast.Name)
+                and is_self_attr(n.generators[0].iter) and isinstance(n.elt, ast.Call) and is_static(n.elt.func, "Pattern", "value")
+                and len(n.elt.args) == 1 and isinstance(n.elt.args[0], ast.Name) and n.elt.args[0].id == n.generators[0].target.id):
+            # [Pattern.value(v) for v in self.f], f a list / tuple of possibly pattern-valued items
+            f = self.field(n.generators[0].iter.attr)
+            if dict(self.k.fields)[f] != "list arg":
+                raise Reject("comprehension over self.%s, which the model does not type as a list of operands" % n.generators[0].iter.attr)
+            return self.seq_call("values_of", f, env, lambda x, e2: k("vals", x, e2), base, "list")
+        if (isinstance(n, ast.Call) and isinstance(n.func, ast.Name) and n.func.id == "dict" and "dict" not in self.local_names
+                and len(n.args) == 1 and not n.keywords and isinstance(n.args[0], ast.GeneratorExp) and len(n.args[0].generators) == 1):
+            # dict((key, Pattern.value(value)) for key, value in list(self.f.items()))
+            g, e = n.args[0].generators[0], n.args[0].elt
+            it = g.iter
+            if isinstance(it, ast.Call) and isinstance(it.func, ast.Name) and it.func.id == "list" and len(it.args) == 1 and not it.keywords:
+                it = it.args[0]
+            ok = (not g.ifs and isinstance(g.target, ast.Tuple) and len(g.target.elts) == 2 and all(isinstance(t, ast.Name) for t in g.target.elts)
+                  and isinstance(it, ast.Call) and isinstance(it.func, ast.Attribute) and it.func.attr == "items" and not it.args and is_self_attr(it.func.value)
+                  and isinstance(e, ast.Tuple) and len(e.elts) == 2 and isinstance(e.elts[0], ast.Name) and e.elts[0].id == g.target.elts[0].id
+                  and isinstance(e.elts[1], ast.Call) and is_static(e.elts[1].func, "Pattern", "value") and len(e.elts[1].args) == 1
+                  and isinstance(e.elts[1].args[0], ast.Name) and e.elts[1].args[0].id == g.target.elts[1].id)
+            if not ok:
+                raise Reject("dict(generator) not understood: " + ast.unparse(n))
+            f = self.field(it.func.value.attr)
+            if dict(self.k.fields)[f] != "list (string * arg)":
+                raise Reject("self.%s.items(), which the model does not type as a dict of operands" % it.func.value.attr)
+            return self.seq_call("kwvalues_of", f, env, lambda x, e2: k("kwvals", x, e2), base, "list")
+        d = self.dict_comp(n)
+        if d and env.locals.get(d[0], ("",))[0].startswith("adict:"):
+            f = env.locals[d[0]][0].split(":", 1)[1]
+            return self.seq_call("kwvalues_of", f, env, lambda x, e2: k("val", "(VDict %s)" % x, e2), base, "adict")
+        if (isinstance(n, ast.Call) and is_self_attr(n.func) and self.k.attr2field.get(n.func.attr) and dict(self.k.fields)[self.k.attr2field[n.func.attr]] == "fn"
+                and len(n.args) == 2 and isinstance(n.args[1], ast.Starred) and isinstance(n.args[1].value, ast.Name)
+                and len(n.keywords) == 1 and n.keywords[0].arg is None and isinstance(n.keywords[0].value, ast.Name)):
+            # self.operator(x, *args, **kwargs): the function of the catalogue (Syntax.fn) applied by Step.apply_fn
+            A, KW = n.args[1].value.id, n.keywords[0].value.id
+            if env.locals.get(A, ("",))[0] != "vals" or env.locals.get(KW, ("",))[0] != "kwvals":
+                raise Reject("call of self.%s with arguments that are not the resolved args / kwargs" % n.func.attr)
+            op = env.fields[self.k.attr2field[n.func.attr]][1]
+            return self.ev(n.args[0], env, ctx, lambda ta, a, env1: self.prim(
+                "(apply_fn %s %s %s %s)" % (op, self.to_val(ta, a), env1.locals[A][1], env1.locals[KW][1]), env1, k, base, tail))
         if isinstance(n, ast.UnaryOp) and isinstance(n.op, ast.USub):
             def km(ta, a, env1):
                 if ta != "Z":
@@ -734,7 +836,17 @@ class Method:
             v = st.value
             if (isinstance(tg, ast.Name) and tg.id in self.listlike and self.mode == "next" and isinstance(v, ast.Call) and not v.keywords
                     and is_static(v.func, "Pattern", "value") and "Pattern" not in self.local_names and len(v.args) == 1 and is_self_attr(v.args[0])):
-                return self.bind_list(tg.id, v.args[0].attr, env, cont)
+                return self.bind_list(tg.id, v.args[0].attr, env, cont, ctx)
+            if (isinstance(tg, ast.Name) and tg.id in self.dictlike and self.mode == "next" and isinstance(v, ast.Call) and not v.keywords
+                    and is_static(v.func, "Pattern", "value") and "Pattern" not in self.local_names and len(v.args) == 1 and is_self_attr(v.args[0])):
+                # Pattern.value returns a dict as it is: x is the dict held by the attribute (model: f = AD kv)
+                f = self.field(v.args[0].attr)
+                if env.fields[f][0] != "arg":
+                    raise Reject("Pattern.value(self.%s) used as a dict, but the model types the attribute %s" % (v.args[0].attr, env.fields[f][0]))
+                kv = self.fresh("kv_" + f)
+                env2 = env.set_field(f, "arg", "(AD %s)" % kv).set_local(tg.id, "adict:" + f, kv)
+                env2.alias[f] = kv
+                return "(match %s with\n | AD %s =>%s\n | _ => %s\n end)" % (env.fields[f][1], kv, I(cont(env2)), self.r_exc(env, "Inexact"))
             if (isinstance(tg, ast.Name) and tg.id in self.container and self.mode == "next" and isinstance(v, ast.Call) and not v.keywords
                     and is_static(v.func, "Pattern", "value") and "Pattern" not in self.local_names and len(v.args) == 1 and is_self_attr(v.args[0])):
                 if tg.id in self.listlike:
@@ -748,6 +860,9 @@ class Method:
             return self.ev(ast.BinOp(load, st.op, st.value), env, ctx, lambda ty, t, env1: cont(self.assign(st.target, ty, t, env1)), base="v_" + base)
         if isinstance(st, ast.If):
             return self.emit_cond(self.cond_ir(st.test, env), env, lambda: self.run(st.body + rest, env, ctx), lambda: self.run(st.orelse + rest, env, ctx))
+        if isinstance(st, ast.Raise) and st.cause is None and st.exc is None and ctx.in_handler and self.mode == "next":
+            # bare `raise` inside `except StopIteration:` re-raises it
+            return ctx.on_stop(env) if ctx.on_stop else self.r_exc(env, "Stop")
         if isinstance(st, ast.Raise) and st.cause is None and st.exc is not None:
             e = st.exc.func if isinstance(st.exc, ast.Call) and not st.exc.args and not st.exc.keywords else st.exc
             if isinstance(e, ast.Name) and e.id == "StopIteration" and self.mode == "next":
@@ -773,7 +888,8 @@ class Method:
                     or st.handlers[0].name is not None
                     or not (isinstance(st.handlers[0].type, ast.Name) and st.handlers[0].type.id == "StopIteration")):
                 raise Reject("try statement other than a plain `try: .. except StopIteration: ..`")
-            inner = Ctx(on_end=cont, on_stop=lambda env1: self.run(st.handlers[0].body + rest, env1, ctx), in_try=True)
+            hctx = Ctx(ctx.on_end, ctx.on_stop, ctx.in_try, ctx.in_loop, in_handler=True)
+            inner = Ctx(on_end=cont, on_stop=lambda env1: self.run(st.handlers[0].body + rest, env1, hctx), in_try=True)
             return self.run(st.body, env, inner)
         if isinstance(st, ast.While) and not st.orelse:
             if self.mode != "next" or ctx.in_try or ctx.in_loop:
@@ -816,6 +932,8 @@ class Method:
     def base_reset(self, base, env, cont):
         if base != "Pattern":
             raise Reject("super().reset() resolves to %s.reset, which is not Pattern.reset" % base)
+        if any(ty in ("list arg", "list (string * arg)") for (_, ty) in self.k.fields):
+            raise Reject("Pattern.reset over a tuple / dict of operands held by an attribute")
         order = [a for a in self.k.attr_order if a in self.k.attr2field and dict(self.k.fields)[self.k.attr2field[a]] == "arg"]
         missing = [f for (f, ty) in self.k.fields if ty == "arg" and f not in [self.k.attr2field[a] for a in order]]
         if missing:
@@ -904,7 +1022,7 @@ def class_chain(modules, node):
         out.append(node)
 
 
-def find_method(chain, name):
+def find_method(chain, name, strict=True):
     """(defining class, FunctionDef) by the MRO of a single-inheritance chain; None if only Pattern has it"""
     for c in chain:
         fs = [n for n in c.body if isinstance(n, (ast.FunctionDef, ast.AsyncFunctionDef)) and n.name == name]
@@ -913,7 +1031,7 @@ def find_method(chain, name):
         if fs:
             fn = fs[0]
             a = fn.args
-            if not isinstance(fn, ast.FunctionDef) or fn.decorator_list or a.posonlyargs or a.kwonlyargs or a.vararg or a.kwarg:
+            if not isinstance(fn, ast.FunctionDef) or fn.decorator_list or a.posonlyargs or a.kwonlyargs or (strict and (a.vararg or a.kwarg)):
                 raise Reject("%s.%s: signature / decorators not understood" % (c.name, name))
             if not a.args or a.args[0].arg != "self":
                 raise Reject("%s.%s: first parameter is not self" % (c.name, name))
@@ -996,7 +1114,7 @@ def translate_class(modules, ctors, fname, cname, tonal=False):
     for f in k.attr2field:
         if f not in mentioned:
             raise Reject("model field %s is not an attribute of the class" % f)
-    init = find_method(chain, "__init__")
+    init = find_method(chain, "__init__", strict=False)
     if init is None:
         raise Reject("no __init__")
     k.attr_order = attr_creation_order(init[1])
@@ -1050,6 +1168,8 @@ def translate_class(modules, ctors, fname, cname, tonal=False):
     # ---- __init__ ----
     try:
         fn = init[1]
+        if fn.args.vararg or fn.args.kwarg:
+            raise Reject("__init__ takes *args / **kwargs")
         if fn.args.kw_defaults or any(not isinstance(d, (ast.Constant, ast.Attribute)) for d in fn.args.defaults):
             raise Reject("__init__: defaults not understood")
         params = [a.arg for a in fn.args.args[1:]]
